@@ -51,6 +51,12 @@ fn main() {
             }
             exit(c06::abort_demo(&args[2]));
         }
+        "abort-demo-decode" => {
+            if args.len() < 3 {
+                usage();
+            }
+            exit(c20::abort_demo_decode(&args[2]));
+        }
         "selftest" => {
             let mut ok = true;
             for (g, l) in [(2, 2), (4, 3), (5, 4), (6, 5)] {
